@@ -1,5 +1,5 @@
 """Shared execution engine of the checks (see check.py)."""
-import json, os, time
+import json, os, shutil, time
 
 from check import (build_harness, tlc_mc, harness_gen, harness_run, trace_check, load_known, scenario_of_run,
                    log, WORK, VERIF)
@@ -27,6 +27,12 @@ def execute(prop, tier, plan, seed, wdir):
            "known_findings_reproduced": {}, "other_property_verdicts": {}, "runs_aborted": 0, "unmodelled_sites": []}
     res["coverage"] = cov
 
+    import glob
+    for stale in glob.glob(f"{WORK}/diverged/{prop}-*"):
+        try:
+            os.remove(stale)
+        except OSError:
+            pass
     cov["harness_build_s"] = round(build_harness(), 1)
     known = [k for k in load_known() if k.get("property") == prop and k.get("kind") == "known"]
     known_ids = {k["id"] for k in known}
@@ -140,6 +146,10 @@ def execute(prop, tier, plan, seed, wdir):
             except OSError:
                 pass
         try:
+            if rep.get("ndiv") and not os.environ.get("VERIF_NO_KEEP"):
+                # a step of the code the specification did not predict: keep the trace for inspection (never a verdict)
+                os.makedirs(f"{WORK}/diverged", exist_ok=True)
+                shutil.copy(trace, f"{WORK}/diverged/{prop}-{name}.ndjson")
             if not plan.get("keep_traces"):
                 os.remove(trace)
         except OSError:
@@ -172,6 +182,11 @@ def execute(prop, tier, plan, seed, wdir):
         cov["divergences"] += rep["ndiv"]
         cov["steps_outside_model_range"] = cov.get("steps_outside_model_range", 0) + rep.get("oor", 0)
         cov["divergence_samples"] += rep["div"][:3]
+        if rep.get("lsub"):
+            lg = cov.setdefault("lock_grain", {"sub_steps": 0, "spans_checked_as_one_specification_step": 0, "spans_with_several_effects_(state-level_judges_only_afterwards)": 0})
+            lg["sub_steps"] += rep["lsub"]
+            lg["spans_checked_as_one_specification_step"] += rep.get("lexact", 0)
+            lg["spans_with_several_effects_(state-level_judges_only_afterwards)"] += rep.get("lsplit", 0)
         cov["unmodelled_sites"] = sorted(set(cov["unmodelled_sites"]) | set(rep.get("unmodelled", [])))
         for site, n in (rep.get("sites") or {}).items():
             cov.setdefault("impl_steps_per_site", {})[site] = cov.get("impl_steps_per_site", {}).get(site, 0) + n
